@@ -979,3 +979,52 @@ def league(sess, rng, kind, nplayers, games, predictions=True, twin=False, prop=
 def leagues(sess, rng, count, nplayers, games, kinds=KINDS, **kw):
     for i in range(count):
         league(sess, rng, kinds[i % len(kinds)], nplayers, games, **kw)
+
+
+# ============================================================================= threads (C14)
+def thread_executions(sess, rng, count, thread_log, kinds=KINDS, nthreads=(2, 2, 3), exhaustive_pairs=None):
+    """count executions of 2-3 concurrent calls on one shared model under chosen schedules
+    (<= 2 pre-emptions for two threads, random segments for three, some free running)."""
+    import sched as _sched
+
+    x = 0
+    for _ in range(count):
+        kind = rng.choice(kinds)
+        params, g, beta = pick_model_params(rng, kind, simple=True)
+        if rng.random() < 0.5:
+            params["tau"] = beta            # large tau: posterior sigma above the prior, the clamp matters
+        nt = rng.choice(nthreads)
+        calls = []
+        for t in range(nt):
+            shape = pick_shape(rng, 3, 2)
+            vals = random_vals(rng, shape, beta, False)
+            vals = [[(mu, min(sg, beta)) for (mu, sg) in tv] for tv in vals]
+            op = rng.choice(["rate", "rate", "rate", "win", "draw", "rank"])
+            kw = {}
+            if op == "rate":
+                kw, _ = encode_order(rng, weak_order(rng, len(shape)))
+                r = rng.random()
+                if r < 0.35:
+                    kw["limit_sigma"] = True
+                elif r < 0.6:
+                    kw["limit_sigma"] = False
+                if rng.random() < 0.3:
+                    kw["tau"] = rng.choice([0, beta / 2, beta])
+            calls.append({"op": op, "vals": vals, "kw": kw})
+        if exhaustive_pairs and nt == 2:
+            plans = [[(0, a), (1, b), (0, None), (1, None)] for (a, b) in exhaustive_pairs]
+        else:
+            r = rng.random()
+            if r < 0.15:
+                plans = [None]
+            elif nt == 2:
+                plans = [[(0, rng.randint(0, 30)), (1, rng.randint(0, 30)), (0, None), (1, None)] for _k in range(3)]
+                plans.append([(1, rng.randint(0, 30)), (0, rng.randint(0, 30)), (1, None), (0, None)])
+            else:
+                plans = []
+                for _k in range(3):
+                    segs = [(rng.randrange(nt), rng.randint(1, 12)) for _s in range(8)]
+                    plans.append(segs + [(t, None) for t in range(nt)])
+        for plan in plans:
+            x += 1
+            _sched.run_execution(sess, x, kind, params, g, calls, plan, thread_log)
